@@ -482,11 +482,21 @@ fn apply_header_fault(m: &mut WMsg, s: &Scripted) {
         4 => m.tc = true,
         5 => m.rcode = [1u8, 2, 4, 5, 9][s.fault_detail as usize % 5],
         6 => {
-            if let Some(q) = m.questions.first_mut() {
-                match s.fault_detail % 3 {
-                    0 => q.name = q.name.child(b"x"),
-                    1 => q.qtype = q.qtype.wrapping_add(1),
-                    _ => q.qclass = 3,
+            match s.fault_detail % 5 {
+                // no question at all / a second question after the right one
+                3 => m.questions.clear(),
+                4 => {
+                    let extra = m.questions.first().cloned();
+                    m.questions.extend(extra);
+                }
+                d => {
+                    if let Some(q) = m.questions.first_mut() {
+                        match d {
+                            0 => q.name = q.name.child(b"x"),
+                            1 => q.qtype = q.qtype.wrapping_add(1),
+                            _ => q.qclass = 3,
+                        }
+                    }
                 }
             }
         }
